@@ -79,10 +79,22 @@ def oracle(case, rec):
     rec.cls('layout=' + case.get('layout', 'C'))
     rec.cls('dtype=' + case.get('dtype', 'f8'))
     ktag = 'K=1' if K == 1 else 'K>1'
+    logged = (x.shape[0] + y.shape[0]) % 4 == 0
+    if logged:
+        # the same request with the emd logger set up (quiet console level): a valid pairing all the same
+        import io
+        import contextlib
+        from .c20 import reset_logging
+        with contextlib.redirect_stdout(io.StringIO()):
+            emd.logger.set_up(level='WARNING')
+        rec.cls('emd logger set up')
     try:
         xi, yi = emd.cycles.kdt_match(xa, ya, K=K, distance_upper_bound=bound)
     except Exception as e:
         raise Violation('C17/kdt_match/raises/%s/%s' % (type(e).__name__, ktag), repr(e))
+    finally:
+        if logged:
+            reset_logging()
     held = (xi, yi)
     keep = (np.array(xi), np.array(yi))
     try:
